@@ -48,18 +48,14 @@ func writeDesignMD() {
 		fmt.Printf("*Rules as built.* %s\n\n", p.Explanation)
 		if b, err := os.ReadFile("/verif/evidence/" + id + ".json"); err == nil {
 			var ev struct {
+				Tier     string `json:"tier"`
 				Coverage struct {
-					RulesInstances map[string]int `json:"rules_instances"`
-					Obligations    int            `json:"obligations"`
+					RulesInstances []string `json:"rules_instances"`
+					BuildConfigs   []string `json:"build_configs"`
 				} `json:"coverage"`
 			}
 			if json.Unmarshal(b, &ev) == nil && len(ev.Coverage.RulesInstances) > 0 {
-				var rs []string
-				for r, n := range ev.Coverage.RulesInstances {
-					rs = append(rs, fmt.Sprintf("%s=%d", r, n))
-				}
-				sort.Strings(rs)
-				fmt.Printf("*Instances examined on the current tree (last run):* %s.\n\n", strings.Join(rs, ", "))
+				fmt.Printf("*Instances examined on the current tree (last %s run, %d build configuration(s)):* %s.\n\n", ev.Tier, len(ev.Coverage.BuildConfigs), strings.Join(ev.Coverage.RulesInstances, ", "))
 			}
 		}
 		if len(p.NotCovered) > 0 {
